@@ -62,3 +62,7 @@ add("C13", "property-based testing (Hypothesis) over a trace simulator against a
     "Generated-input search over simulated multi-thread traces (step thread + autograd thread, backward annotations, launches from several children, dropped partners) loaded through the public entry point: parent, depth, height and the five kernel aggregates of every host event are recomputed from a model tree (innermost-enclosing forest + device children from links + stated autograd re-parenting) in loaded time and compared exactly; get_stack_of_node must contain ancestors and descendants; zero-duration operators by validity predicate.",
     "Trusts hv/gen/spans.model_parents, hv/model/raw links and hv/model/trace trimming; sync records on stream -1 are not part of the asserted tree.",
     "DESIGN.md §5 C13")
+add("C16", "property-based testing (Hypothesis) with template-reuse generation against a tree reference model",
+    "Generated-input search over simulated traces in which operator templates are instantiated repeatedly with variations (dropped launch, renamed kernel, same-name and other-name wrappers, dropped partners) x operator name/substring x min_pattern_len x top_k: the returned table must equal pattern -> (count, kernel duration sum, operator duration sum) computed from the model call tree at the shallowest matching depth, with rows in non-increasing count; totals-only when kernel start order is ambiguous.",
+    "Trusts hv/model/calltree.py; no zero-duration host events, no sync calls, no autograd thread in these traces; exactly one profiler 'Trace' span entry.",
+    "DESIGN.md §5 C16")
